@@ -21,6 +21,7 @@
   Core Lean only: linked into the `driver` executable.
 -/
 import RoModel.Basic
+import RoModel.Linearizable
 namespace Ro.Subj
 
 variable {α : Type}
@@ -307,6 +308,11 @@ def State.hasObserver (s : State α) : Bool := !s.observers.isEmpty
 def State.isClosed (s : State α) : Bool := match s.status with | .active => false | _ => true
 def State.hasThrown (s : State α) : Bool := match s.status with | .errored _ _ => true | _ => false
 def State.isCompleted (s : State α) : Bool := match s.status with | .completed => true | _ => false
+
+/-- a subject as a sequential object in the sense of RoModel/Linearizable.lean (operations return
+    nothing; their effects are observed by the subscribers) -/
+def subjectObj (k : Kind α) : Lin.Obj (State α) (Op α) Unit :=
+  { init := k.init, step := fun s o => (k.step s o, ()) }
 
 /-! ### multicast, micro-steps: a broadcast is a loop, and `Unsubscribe` does not take `s.mu`.
     `subscriberImpl.Unsubscribe` (subscriber.go:259-263) is a CAS on the subscriber's own status
